@@ -56,6 +56,9 @@ func (Builder) Generate(seed uint64, tier string) engine.Plan {
 	if r.Chance(1, 6) {
 		nops = 1 + r.Intn(40)
 	}
+	if deep(tier) && r.Chance(1, 10) {
+		nops = 40 + r.Intn(110) // thorough tier: long histories
+	}
 	setProb := r.PickInt(0, 0, 1, 3) // out of 10
 	off := int64(0)                  // generator's running offset estimate
 	for i := 0; i < nops && off < 1<<19; i++ {
@@ -224,12 +227,13 @@ func (Builder) Execute(pl engine.Plan, c *engine.RunCtx) *engine.Failure {
 		switch op.Op {
 		case "extend":
 			st.Inc("op.extend")
-			pos := append([]int32(nil), op.Pos...)
+			posFull := append(append(make([]int32, 0, len(op.Pos)+2), op.Pos...), -7, -7)
+			pos := posFull[:len(op.Pos)]
 			if !guard(func() string { return fmt.Sprintf("Extend(%v, %d) at Offset=%d", op.Pos, op.Size, offset) }, func() { b.Extend(pos, op.Size) }) {
 				return fail
 			}
-			if !int32sEqual(pos, op.Pos) {
-				return engine.Failf("C12.extend.args", step, "Extend modified its positions argument")
+			if !int32sEqual(pos, op.Pos) || posFull[len(op.Pos)] != -7 || posFull[len(op.Pos)+1] != -7 {
+				return engine.Failf("C12.extend.args", step, "Extend modified its positions argument (or the capacity behind it)")
 			}
 			for _, q := range op.Pos {
 				bit := offset + q
@@ -298,11 +302,44 @@ func (Builder) Execute(pl engine.Plan, c *engine.RunCtx) *engine.Failure {
 			if !wordsEqual(b.Words, ofw) {
 				return engine.Failf("C12.extend_eq_of", step, "after op %d: Builder.Words (%d words) differs from Of(shifted positions, %d) (%d words)", oi, len(b.Words), offset, len(ofw))
 			}
-			if !guard(func() string { return "OfMany" }, func() { omw = bitmap.OfMany(segs, sizes) }) {
-				return fail
+			// The segments are handed over the way a caller that keeps all position
+			// lists in ONE flat array would: as sub-slices whose capacity runs on
+			// into the following segments. The call is made twice: a callee that
+			// appends into (or otherwise writes through) a segment corrupts the
+			// caller's later segments, and the second call no longer yields the
+			// bitmap Of would build.
+			flat := make([]int32, 0, len(shifted)+4)
+			for _, sg := range segs {
+				flat = append(flat, sg...)
 			}
-			if !wordsEqual(omw, ofw) {
-				return engine.Failf("C12.ofmany_eq_of", step, "after op %d: OfMany(segments, sizes) (%d words) differs from Of(shifted positions, total) (%d words)", oi, len(omw), len(ofw))
+			flat = append(flat, -7, -7, -7, -7)[:len(flat)] // sentinels in the spare capacity
+			fsegs := make([][]int32, len(segs))
+			at := 0
+			for i, sg := range segs {
+				fsegs[i] = flat[at : at+len(sg)]
+				at += len(sg)
+			}
+			for rep := 0; rep < 2; rep++ {
+				if !guard(func() string { return "OfMany" }, func() { omw = bitmap.OfMany(fsegs, sizes) }) {
+					return fail
+				}
+				if !wordsEqual(omw, ofw) {
+					return engine.Failf("C12.ofmany_eq_of", step, "after op %d: OfMany(segments, sizes) (%d words, call #%d with the same arguments) differs from Of(shifted positions, total) (%d words)", oi, len(omw), rep+1, len(ofw))
+				}
+			}
+			at = 0
+			for _, sg := range segs {
+				for j, v := range sg {
+					if flat[at+j] != v {
+						return engine.Failf("C12.ofmany.args", step, "after op %d: OfMany overwrote the caller's position lists (element %d of the flat array is now %d, was %d)", oi, at+j, flat[at+j], v)
+					}
+				}
+				at += len(sg)
+			}
+			for _, v := range flat[len(flat) : len(flat)+4] {
+				if v != -7 {
+					return engine.Failf("C12.ofmany.args", step, "after op %d: OfMany wrote into the spare capacity behind the caller's position lists", oi)
+				}
 			}
 			if wn := ceilWords(max64(int64(offset), need)); len(ofw) != wn {
 				return engine.Failf("C12.of.words", step, "Of(list, %d) with last=%d returned %d words, want %d", offset, maxbit, len(ofw), wn)
